@@ -741,10 +741,110 @@ impl<'a> EM<'a> {
     }
 }
 
+/// Providers loaded from IERS-format files in their variants of layout (the configurations of C06): every
+/// file is written under the run's output directory, logged line by line, loaded, dumped and queried.
+pub fn leap_files(m: &mut EM, rng: &mut Rng, thorough: bool) {
+    use hifitime::leap_seconds::LeapSecondsFile;
+    let base = leap_entries();
+    let dir = format!("{}/leapfiles", m.rec.dir);
+    std::fs::create_dir_all(&dir).unwrap();
+    let jan = ["1 Jan", "1 Jul"];
+    // (name, lines, end of line, the table the file denotes if it is well formed)
+    let mut files: Vec<(String, Vec<String>, &str, Option<Vec<(u64, u64)>>)> = Vec::new();
+    let line = |t: u64, d: u64, sep: &str, tail: &str| format!("{t}{sep}{d}{tail}");
+    let table = |ents: &[(u64, u64)], sep: &str, tail: bool| -> Vec<String> {
+        ents.iter().enumerate().map(|(i, (t, d))| line(*t, *d, sep, if tail { format!("\t# {} {}", jan[i % 2], 1972 + i / 2) } else { String::new() }.as_str())).collect()
+    };
+    let header: Vec<String> = vec![
+        "#".into(),
+        "#\tIn the following text, the symbol '#' introduces".into(),
+        "#\ta comment, which continues from that symbol until".into(),
+        "#$\t 3676924800".into(),
+        "#@\t3896899200".into(),
+        "".into(),
+    ];
+    files.push(("tab".into(), table(&base, "\t", false), "\n", Some(base.clone())));
+    files.push(("space".into(), table(&base, " ", false), "\n", Some(base.clone())));
+    files.push(("blanks".into(), table(&base, "      ", true), "\n", Some(base.clone())));
+    files.push(("blank_tab".into(), table(&base, " \t", true), "\n", Some(base.clone())));
+    files.push(("tabs_crlf".into(), table(&base, "\t\t", true), "\r\n", Some(base.clone())));
+    let mut with_header = header.clone();
+    with_header.extend(table(&base, "\t", true));
+    with_header.push("".into());
+    with_header.push("#h\t16edd0f0 3666e3fc ec671ecc 5a30e2ad 1002dbce".into());
+    files.push(("header".into(), with_header, "\n", Some(base.clone())));
+    for k in [0usize, 1, 2, 9, 27] {
+        let mut l = header.clone();
+        l.extend(table(&base[..k], "\t", true));
+        files.push((format!("prefix{k}"), l, "\n", Some(base[..k].to_vec())));
+    }
+    let mut ext = base.clone();
+    ext.push(((days_from_civil(2030, 1, 1) - days_from_civil(1900, 1, 1)) as u64 * 86_400, 38));
+    files.push(("extended".into(), table(&ext, "\t", true), "\n", Some(ext.clone())));
+    // certainly not tables
+    let mut bad = table(&base, "\t", false);
+    bad[3] = "2366755200".into();
+    files.push(("one_column".into(), bad, "\n", None));
+    let mut bad = table(&base, "\t", false);
+    bad[5] = "24613x200\t15".into();
+    files.push(("not_numeric".into(), bad, "\n", None));
+    let mut bad = table(&base, "\t", false);
+    bad[7] = "2524521600\t256".into();
+    files.push(("offset_overflow".into(), bad, "\n", None));
+    let mut bad = table(&base, "\t", false);
+    bad.insert(2, "   ".into());
+    files.push(("blank_data_line".into(), bad, "\n", None));
+    let mut bad = table(&base, "\t", false);
+    bad[0] = " # indented comment".into();
+    files.push(("indented_comment".into(), bad, "\n", None));
+    let mut bad = table(&base, "\t", false);
+    bad[9] = "99999999999999999999999\t19".into();
+    files.push(("stamp_overflow".into(), bad, "\n", None));
+    for (name, lines, eol, tab) in files {
+        let path = format!("{dir}/{name}.list");
+        let mut text = lines.join(eol);
+        text.push_str(eol);
+        std::fs::write(&path, text).unwrap();
+        m.rec.episode();
+        let p2 = path.clone();
+        let r = catch(move || LeapSecondsFile::from_path(&p2).map(|p| p.map(|l| jleap(&l)).collect::<Vec<String>>()).map_err(|_| ()));
+        let res = match &r {
+            Ok(Ok(v)) => format!("{{\"v\":[{}]}}", v.join(",")),
+            Ok(Err(_)) => "{\"err\":1}".to_string(),
+            Err(p) => jpanic(p),
+        };
+        let jl: Vec<String> = lines.iter().map(|l| jstr(l)).collect();
+        m.rec.ev("leap_file", format!("\"name\":\"{}\",\"lines\":[{}],\"res\":{}", name, jl.join(","), res), true);
+        // the provider answers from its own table: around every entry of it, before the first, after the last
+        if let (Some(tab), Ok(Ok(_))) = (tab, &r) {
+            let jt: Vec<String> = tab.iter().map(|(t, d)| format!("{{\"t\":{},\"d\":{}}}", jubig(*t as u128), d)).collect();
+            let jtab = jt.join(",");
+            let mut pts: Vec<i128> = vec![0, 2_000_000_000 * NS_S as i128, 5_000_000_000 * NS_S as i128];
+            for (i, (t, d)) in tab.iter().enumerate() {
+                if thorough || i % 4 == 0 || i + 2 >= tab.len() {
+                    let t = *t as i128 * NS_S as i128;
+                    for dt in [-(NS_S as i128), -1, 0, 1, (*d as i128 - 1) * NS_S as i128, *d as i128 * NS_S as i128 - 1, *d as i128 * NS_S as i128, *d as i128 * NS_S as i128 + 1] {
+                        pts.push(t + dt);
+                    }
+                }
+            }
+            for (k, x) in pts.iter().enumerate() {
+                let ts = if k % 3 == 0 { TimeScale::UTC } else if k % 3 == 1 { TimeScale::TAI } else { *rng.pick(&UNIFORM) };
+                m.eload_dur(ts, ns_dur(*x));
+                let a = m.e;
+                let p3 = path.clone();
+                let r = catch(move || a.leap_seconds_with(true, LeapSecondsFile::from_path(&p3).unwrap()));
+                m.rec.ev("leap_with", format!("\"name\":\"{}\",\"tab\":[{}],\"res\":{}", name, jtab, jopt_f64(&r)), true);
+            }
+        }
+    }
+}
+
 pub fn c06(rec: &mut Rec, lm: &Landmarks, rng: &mut Rng, thorough: bool) {
     let g = EpGen::new(lm, thorough);
     leap_dumps(rec);
     let mut m = EM::new(rec);
+    leap_files(&mut m, rng, thorough);
     // the providers answer identically: built-in table and IERS file, around every entry and elsewhere
     for (k, &x) in g.leaps.iter().enumerate() {
         if !thorough && k % 5 != 0 {
